@@ -1,5 +1,345 @@
-//! stub
-use super::super::kernel::{Plan, RunRec};
-use super::Outcome;
-pub fn generate(_cx: &super::GenCtx) -> Vec<Plan> { vec![] }
-pub fn check(_plans: &[Plan], _recs: &[RunRec]) -> Outcome { Outcome::default() }
+//! C12 — with caching on, short forced mates are found and avoidable ones avoided.
+//!
+//! The cache is process-wide state that survives from search to search; the property is
+//! about histories of completed searches within one session. Nothing is interrupted here
+//! (interrupted predecessors are C13's business).
+
+use super::super::gen;
+use super::super::json::J;
+use super::super::kernel::{Action, EndReason, Plan, Policy, RunRec};
+use super::super::refmodel::{playout, ptype, Pos, Solver, B, BLACK, EMPTY, K, N, P, Q, R};
+use super::super::rng::Rng;
+use super::super::session::history;
+use super::c14::parse_info;
+use super::{common_stats, go_views, Outcome, Violation};
+
+#[derive(Clone, Copy, PartialEq, Eq, Debug)]
+pub struct Class {
+    pub m1: bool,
+    pub m2: bool,
+    pub threat: bool,
+}
+
+pub fn classify(pos: &Pos) -> Class {
+    let m1 = !Solver::mating_moves(pos).is_empty();
+    let m2 = !m1 && Solver::new(400_000).mate_in(pos, 2) == Some(true);
+    let mut bad = 0;
+    let mut safe = 0;
+    for m in pos.legal_moves() {
+        let p2 = pos.make(m);
+        if Solver::mating_moves(&p2).is_empty() {
+            safe += 1;
+        } else {
+            bad += 1;
+        }
+    }
+    Class {
+        m1,
+        m2,
+        threat: bad > 0 && safe > 0,
+    }
+}
+
+fn attacker_ending(rng: &mut Rng) -> Option<Pos> {
+    let sets: &[&[u8]] = &[&[Q], &[R], &[R, R], &[Q, Q], &[Q, R], &[B, B], &[B, N], &[Q, P], &[R, P], &[R, N], &[Q, B]];
+    let set = *rng.pick(sets);
+    let attacker_black = rng.chance(1, 2);
+    let ac = if attacker_black { BLACK } else { 0 };
+    let mut sqs = [EMPTY; 64];
+    let mut put = |sqs: &mut [u8; 64], p: u8, rng: &mut Rng| {
+        for _ in 0..100 {
+            let s = rng.usize_below(64);
+            if sqs[s] != EMPTY {
+                continue;
+            }
+            if ptype(p) == P && !(8..56).contains(&s) {
+                continue;
+            }
+            sqs[s] = p;
+            return;
+        }
+    };
+    put(&mut sqs, K | ac, rng);
+    // defender king: often near an edge, where mates live
+    if rng.chance(2, 3) {
+        let edge: Vec<usize> = (0..64).filter(|s| s % 8 == 0 || s % 8 == 7 || *s < 8 || *s >= 56).collect();
+        for _ in 0..50 {
+            let s = *rng.pick(&edge);
+            if sqs[s] == EMPTY {
+                sqs[s] = K | (ac ^ BLACK);
+                break;
+            }
+        }
+    }
+    if !sqs.contains(&(K | (ac ^ BLACK))) {
+        put(&mut sqs, K | (ac ^ BLACK), rng);
+    }
+    for &p in set {
+        put(&mut sqs, p | ac, rng);
+    }
+    for _ in 0..rng.below(3) {
+        let c = if rng.chance(1, 2) { 0 } else { BLACK };
+        put(&mut sqs, P | c, rng);
+    }
+    if rng.chance(1, 4) {
+        let t = *rng.pick(&[N, B, R]);
+        put(&mut sqs, t | (ac ^ BLACK), rng);
+    }
+    let pos = Pos {
+        sq: sqs,
+        white: rng.chance(1, 2),
+        castle: [false; 4],
+        ep: None,
+        hmc: rng.below(21) as u32,
+        fmn: rng.range(1, 90) as u32,
+    };
+    if pos.is_sane() && !pos.legal_moves().is_empty() {
+        Some(pos)
+    } else {
+        None
+    }
+}
+
+fn candidate(rng: &mut Rng) -> Option<Pos> {
+    match rng.below(10) {
+        0..=4 => attacker_ending(rng),
+        5..=7 => {
+            let (_, ps) = playout(&Pos::start(), rng.range(16, 90) as usize, rng, true);
+            let mut p = ps.last().unwrap().clone();
+            p.hmc = p.hmc.min(20);
+            Some(p)
+        }
+        _ => {
+            let base = Pos::from_fen(rng.pick(gen::BENCH_FENS)).unwrap();
+            let (_, ps) = playout(&base, rng.below(10) as usize, rng, true);
+            let mut p = ps.last().unwrap().clone();
+            p.hmc = p.hmc.min(20);
+            Some(p)
+        }
+    }
+}
+
+pub fn generate(cx: &super::GenCtx) -> Vec<Plan> {
+    let seed = cx.seed;
+    let mut rng = Rng::new(seed);
+    let mut found = None;
+    for _ in 0..400 {
+        let Some(p) = candidate(&mut rng) else { continue };
+        if p.legal_moves().is_empty() {
+            continue;
+        }
+        let c = classify(&p);
+        if c.m1 || c.m2 || c.threat {
+            found = Some((p, c));
+            break;
+        }
+    }
+    let Some((pos, class)) = found else { return vec![] };
+    let sparse = pos.piece_count() <= 8;
+    let mut plan = Plan::new("C12", seed);
+    let mut s = vec![Action::send(format!("position fen {}", pos.to_fen()))];
+    // earlier completed searches of the same position at other depths, in random order
+    let prefix = rng.below(4);
+    for _ in 0..prefix {
+        let maxd = if sparse { 5 } else { 4 };
+        let d = rng.range(1, maxd);
+        s.push(Action::send(format!("go depth {d}")));
+        s.push(Action::WaitBestmove);
+        s.push(Action::WaitIdle);
+    }
+    let mut finals = vec![3u64, 4];
+    if rng.chance(1, 2) {
+        finals.reverse();
+    }
+    for d in finals {
+        s.push(Action::send(format!("go depth {d}")));
+        s.push(Action::WaitBestmove);
+        s.push(Action::WaitIdle);
+    }
+    s.push(Action::send("quit"));
+    plan.script = s;
+    plan.cost_ns = *rng.pick(&[200, 1000, 5000]);
+    plan.policy = Some(Policy::Quiet);
+    plan.step_cap = 12_000_000;
+    plan.tick_cap = 40_000_000;
+    plan.params = J::obj()
+        .set("fen", pos.to_fen())
+        .set("m1", class.m1)
+        .set("m2", class.m2)
+        .set("threat", class.threat)
+        .set("prefix_searches", prefix);
+    vec![plan]
+}
+
+fn insufficient(pos: &Pos, white: bool) -> bool {
+    // Can `white` side still possibly mate? Only K, or K + one minor and no pawns: no.
+    let side = if white { 0 } else { BLACK };
+    let mut minors = 0;
+    for &p in &pos.sq {
+        if p == EMPTY || (p & BLACK) != side {
+            continue;
+        }
+        match ptype(p) {
+            K => {}
+            N | B => minors += 1,
+            _ => return false,
+        }
+    }
+    minors <= 1
+}
+
+pub fn check(plans: &[Plan], recs: &[RunRec]) -> Outcome {
+    let (plan, rec) = (&plans[0], &recs[0]);
+    let mut out = Outcome::default();
+    common_stats(plan, rec, &mut out.stats);
+    let h = history(rec);
+    let views = go_views(&h);
+    let Ok(pos) = Pos::from_fen(&plan.params.s("fen")) else {
+        return out;
+    };
+    // Re-derive the class from the rules (never trust the file).
+    let class = classify(&pos);
+    if class.m1 {
+        out.stats.inc("cases.mate_in_1");
+    }
+    if class.m2 {
+        out.stats.inc("cases.mate_in_2");
+    }
+    if class.threat {
+        out.stats.inc("cases.avoidable_mate_threat");
+    }
+    let mut earlier = 0;
+    for v in &views {
+        let g = v.go;
+        if g.tid.is_none() {
+            continue;
+        }
+        if v.pos.as_ref() != Some(&pos) {
+            continue; // not a search of the case position (shrunk scripts)
+        }
+        let completed3 = g
+            .infos
+            .iter()
+            .filter_map(|i| parse_info(&i.text).ok())
+            .any(|i| i.depth == 3);
+        let Some(b) = g.bestmoves.first() else {
+            if g.thread_ended {
+                out.violations.push(Violation::new(
+                    "no_bestmove",
+                    format!("go #{} ({:?}) in {}", v.idx, v.text, pos.to_fen()),
+                ));
+            }
+            continue;
+        };
+        if !completed3 {
+            out.stats.inc("searches_vacuous_no_depth3_iteration");
+            earlier += 1;
+            continue;
+        }
+        out.stats.inc("searches_checked");
+        if earlier > 0 {
+            out.stats.inc("reach.search_on_cache_left_by_earlier_searches");
+        } else {
+            out.stats.inc("reach.search_on_empty_cache");
+        }
+        earlier += 1;
+        let mv = b.text.split_whitespace().nth(1).unwrap_or("");
+        let Some(m) = pos.find_uci(mv) else {
+            out.violations.push(Violation::new(
+                "illegal_bestmove",
+                format!("go #{} ({:?}) in {} answered {:?}", v.idx, v.text, pos.to_fen(), b.text),
+            ));
+            continue;
+        };
+        let after = pos.make(m);
+        let ctx = format!(
+            "go #{} ({:?}) in {} after {} earlier search(es) in the session chose {mv}",
+            v.idx,
+            v.text,
+            pos.to_fen(),
+            earlier - 1
+        );
+        if class.m1 {
+            if after.is_checkmate() {
+                out.stats.inc("ok.mate_in_1_played");
+            } else {
+                out.violations.push(Violation::new(
+                    "mate_in_1_missed",
+                    format!("{ctx}, which is not checkmate; mating moves: {:?}",
+                        Solver::mating_moves(&pos).iter().map(|m| m.uci()).collect::<Vec<_>>()),
+                ));
+            }
+        }
+        if class.threat {
+            let mates = Solver::mating_moves(&after);
+            if mates.is_empty() {
+                out.stats.inc("ok.mate_threat_avoided");
+            } else {
+                out.violations.push(Violation::new(
+                    "walked_into_mate_in_1",
+                    format!("{ctx}, after which {} mates at once although other moves avoid it", mates[0].uci()),
+                ));
+            }
+        }
+        if class.m2 {
+            if after.is_checkmate() {
+                out.stats.inc("ok.mate_kept");
+                continue;
+            }
+            if after.is_stalemate() {
+                out.violations.push(Violation::new(
+                    "forced_mate_thrown_away",
+                    format!("{ctx}, which stalemates although a mate in two exists"),
+                ));
+                continue;
+            }
+            let mut verdict = "kept";
+            let mut why = String::new();
+            for r in after.legal_moves() {
+                let p2 = after.make(r);
+                if insufficient(&p2, pos.white) {
+                    verdict = "lost";
+                    why = format!("after {} the attacker has no mating material left", r.uci());
+                    break;
+                }
+                if !Solver::mating_moves(&p2).is_empty() {
+                    continue;
+                }
+                let mut sv = Solver::new(300_000);
+                match sv.mate_in(&p2, 3) {
+                    Some(true) => {}
+                    _ => {
+                        // Longer mates may exist: only bare-king endings are certified.
+                        let defender_bare = p2
+                            .sq
+                            .iter()
+                            .filter(|&&p| p != EMPTY && ((p & BLACK == 0) != pos.white))
+                            .all(|&p| ptype(p) == K);
+                        if defender_bare && !insufficient(&p2, pos.white) {
+                            // textbook win: mating material kept against a bare king
+                        } else if verdict == "kept" {
+                            verdict = "unproven";
+                        }
+                    }
+                }
+            }
+            match verdict {
+                "kept" => out.stats.inc("ok.mate_kept"),
+                "unproven" => out.stats.inc("inconclusive.mate_in_2_followup_not_settled"),
+                _ => out.violations.push(Violation::new(
+                    "forced_mate_thrown_away",
+                    format!("{ctx}; {why}"),
+                )),
+            }
+        }
+    }
+    if rec.end == EndReason::Deadlock {
+        out.violations
+            .push(Violation::new("wedged", "nothing runnable before the session finished"));
+    }
+    if matches!(rec.end, EndReason::StepCap | EndReason::TickCap) {
+        out.stats.inc("inconclusive.cap");
+    }
+    out.nontrivial = views.iter().any(|v| v.go.tid.is_some());
+    out
+}
